@@ -1933,6 +1933,49 @@ package badger
 //@   assert[under-own-key] before call Add : arg0 == w && arg1 == e.Key
 //@   assert[decision-of-this-entry] before call skipVlogAndSetThreshold : arg0 == e
 
+// Prepare: a full stream write starts from an emptied database, and the "done" hook that resumes
+// writes and compactions is the one dropAll handed back, wrapped to run once.
+//@ func (*StreamWriter).Prepare
+//@   props C26
+//@   light
+//@   assert[everything-dropped-under-the-write-lock] before call dropAll : arg0 == sw.db && held(sw.writeLock)
+//@   assert[verdict-of-the-drop] before return : result == ret1(dropAll#1)
+
+// PrepareIncremental: writes and compactions are stopped before anything is looked at; data in a
+// memtable refuses the run; prevLevel becomes the TOPMOST level that holds tables (the writers
+// then write one level above it, over all existing data), found by scanning the levels from the
+// top and stopping at the first non-empty one.
+//@ func (*StreamWriter).PrepareIncremental
+//@   props C26
+//@   light
+//@   assert[writes-blocked-first] before call stopCompactions : called(prepareToDrop#1) && ret1(prepareToDrop#1) == nil
+//@   assert[levels-read-after-compactions-stopped] before call Levels#1 : called(stopCompactions#1) && called(getMemTables#1)
+//@   loop 1 invariant[memtables-so-far-empty] rangeindex >= 0 ==> called(Empty#1)
+//@   loop 2 invariant[nothing-above-so-far] isEmptyDB && forall j int :: 0 <= j && j <= rangeindex && j < len(ret(Levels#1)) ==> ret(Levels#1)[j].NumTables <= 0
+//@   assert[topmost-level-with-tables] before assign isEmptyDB#2 : level.NumTables > 0 && sw.prevLevel == level.Level
+//@   assert[flatten-only-when-level-zero-has-data] before call Flatten : sw.prevLevel == 0 && !isEmptyDB
+
+// send / Done: the table under construction is handed to createTable (throttled), and a writer
+// that is done with a non-empty builder sends it; an empty builder is just closed.
+//@ func (*sortedWriter).send
+//@   props C26
+//@   light
+//@   assert[throttled] before closure send$1 : called(Do#1) && ret(Do#1) == nil
+//@   assert[fresh-builder-unless-done] before return : result == nil ==> (done ? w.builder == nil : called(NewTableBuilder#1) && w.builder == ret(NewTableBuilder#1))
+
+//@ func (*sortedWriter).send.$1
+//@   props C26
+//@   light
+//@   assert[this-builder-becomes-a-table] before call createTable : arg0 == w && arg1 == builder
+//@   assert[throttle-told-the-verdict] before call Done : arg1 == ret(createTable#1)
+
+//@ func (*sortedWriter).Done
+//@   props C26
+//@   light
+//@   assert[empty-builder-just-closed] before call Close : ret(Empty#1)
+//@   assert[pending-table-sent] before call send : !ret(Empty#1) && arg0 == w && arg1
+//@   assert[verdict-of-the-send] before return#2 : result == ret(send#1)
+
 // StreamWriter.Write (after demultiplexing): all requests go to the value log first; each
 // stream's request goes to that stream's writer, which is created on first use one level above
 // the previous one; a closed stream's writer is finished and forgotten.
